@@ -11,7 +11,7 @@ const BIG: usize = 65536;
 /// `add_slice` for the big buffers: the first 32 bytes are summed exactly (ideal accumulator of `h_builder`), everything behind
 /// them is concrete zero by construction of the harnesses (spot-checked at the last byte) and adds nothing. Running the real
 /// `add_slice` over 64 KiB takes CBMC hours; that the real helper equals the ideal one is proved by engine V for every length.
-fn add_slice_zero_tail(start: u64, s: &[u8]) -> u64 {
+pub(crate) fn add_slice_zero_tail(start: u64, s: &[u8]) -> u64 {
     let n = if s.len() > 32 {
         assert!(s[s.len() - 1] == 0);
         32
